@@ -324,6 +324,8 @@ def two_reads_independent():
         spec.has_header = False
         rows = [['01/02/2024', 'DESC', body]]
         log = []
+        import copy
+        spec_before = copy.deepcopy(vars(spec))
         saved = _install(rows, log, [True, True], [0, 0], [v1, v2])
         try:
             out1 = parsers.parse_generic_csv('a.csv', spec, [], source_name='A', decimal_separator='.')
@@ -333,6 +335,9 @@ def two_reads_independent():
         fl = [e[1] for e in log if e[0] == 'float']
         ok = len(out1) == 1 and len(out2) == 1 and out1[0]['amount'] == v1 and out2[0]['amount'] == v2
         ok = ok and fl == [ref_amount_text(body, '.')[1], ref_amount_text(body, ',')[1]]
+        # ... and carries its own source name, also towards the classifier; the format the caller shares between the reads is left as it was
+        ok = ok and out1[0]['source'] == 'A' and out2[0]['source'] == 'B' and [e[4] for e in log if e[0] == 'normalize'] == ['A', 'B']
+        ok = ok and vars(spec) == spec_before
         return post(ok)
     return ob
 
